@@ -64,8 +64,8 @@ func c04Header(fs *Facts, f *File) {
 		}
 	}
 	where := c01Types + ":" + itoa(f.Line(fd))
-	fs.Tri("checksMagic", TriOf(magic), where)
-	fs.Tri("checksVersion", TriOf(ver), where)
+	fs.Tri("checksMagic", Tri3(magic, !f.Contains(fd.Body, "MagicBytes")), where)
+	fs.Tri("checksVersion", Tri3(ver, !f.Contains(fd.Body, "ErrUnsupportedVer")), where)
 }
 
 func c04Entry(fs *Facts, f *File) {
@@ -94,7 +94,7 @@ func c04Entry(fs *Facts, f *File) {
 	}
 	where := c01Types + ":" + itoa(f.Line(fd))
 	fs.OptNat("entryBoundsChecks", n, true, where)
-	fs.Tri("rejectsEmptyKeyOnRead", TriOf(empty), where)
+	fs.Tri("rejectsEmptyKeyOnRead", Tri3(empty, !f.Contains(fd.Body, "ErrEmptyKey")), where)
 }
 
 func c04ParseBlock(fs *Facts, f *File, ty *File) {
@@ -123,10 +123,18 @@ func c04ParseBlock(fs *Facts, f *File, ty *File) {
 	}
 	decPos := dec[0].Pos()
 	crc, crcBefore, ulen, dlen, all := false, false, false, false, false
+	dlenSeen := false
 	var loop token.Pos
 	ast.Inspect(fd.Body, func(x ast.Node) bool {
-		if fr, ok := x.(*ast.ForStmt); ok && loop == token.NoPos {
-			loop = fr.End()
+		switch fr := x.(type) { // the entry loop: classic three-clause form or `for range header.EntryCount`
+		case *ast.ForStmt:
+			if loop == token.NoPos {
+				loop = fr.End()
+			}
+		case *ast.RangeStmt:
+			if loop == token.NoPos && strings.Contains(f.Str(fr.X), "EntryCount") {
+				loop = fr.End()
+			}
 		}
 		return true
 	})
@@ -139,18 +147,36 @@ func c04ParseBlock(fs *Facts, f *File, ty *File) {
 			crcBefore = is.Pos() < decPos
 		case c == "uint32(len(uncompressed))!=header.UncompressedSize" && bad && is.Pos() > decPos:
 			ulen = true
-		case bad && is.Pos() < decPos && strings.Contains(c, "32*len(compressedData)+64") && (strings.Contains(c, "DecodedLen") || strings.Contains(c, "dLen") || strings.Contains(c, "declared")):
-			dlen = true
+		case is.Pos() < decPos && strings.Contains(c, "len(compressedData)") && is.Init != nil && strings.Contains(f.Str(is.Init), "snappy.DecodedLen"):
+			// the WHOLE condition must be `<err> == nil && <dLen> > 32*len(compressedData)+64`, with <dLen>, <err>
+			// the results of snappy.DecodedLen(compressedData) in the if's init; anything else is not the modelled guard
+			dlenSeen = true
+			as, okA := is.Init.(*ast.AssignStmt)
+			be, okB := is.Cond.(*ast.BinaryExpr)
+			if okA && okB && bad && len(as.Lhs) == 2 && len(as.Rhs) == 1 && strings.ReplaceAll(f.Str(as.Rhs[0]), " ", "") == "snappy.DecodedLen(compressedData)" && be.Op == token.LAND {
+				lv, ev := f.Str(as.Lhs[0]), f.Str(as.Lhs[1])
+				l, okL := be.X.(*ast.BinaryExpr)
+				r, okR := be.Y.(*ast.BinaryExpr)
+				if okL && okR && l.Op == token.EQL && f.Str(l.X) == ev && f.Str(l.Y) == "nil" &&
+					r.Op == token.GTR && f.Str(r.X) == lv && strings.ReplaceAll(f.Str(r.Y), " ", "") == "32*len(compressedData)+64" {
+					dlen = true
+				}
+			}
 		case bad && loop != token.NoPos && is.Pos() > loop && (c == "offset!=len(uncompressed)" || c == "len(uncompressed)!=offset"):
 			all = true
 		}
 	}
 	where := c01Block + ":" + itoa(f.Line(fd))
-	fs.Tri("validatesCrc", TriOf(crc), where)
-	fs.Tri("crcBeforeDecompress", TriOf(crcBefore), where)
-	fs.Tri("validatesULen", TriOf(ulen), where)
-	fs.Tri("boundsDecodedLen", TriOf(dlen), where)
-	fs.Tri("parseConsumesAll", TriOf(all), where)
+	fs.Tri("validatesCrc", Tri3(crc, !f.Contains(fd.Body, "Checksum")), where)
+	fs.Tri("crcBeforeDecompress", ShapeTri(crcBefore), where)
+	fs.Tri("validatesULen", Tri3(ulen, !f.Contains(fd.Body, "UncompressedSize")), where)
+	if dlenSeen && !dlen {
+		fs.Tri("boundsDecodedLen", Unknown, where) // a guard of another shape: not the one alloc_bounded is proved for
+	} else {
+		fs.Tri("boundsDecodedLen", TriOf(dlen), where) // no DecodedLen guard at all: positively absent
+	}
+	// absent = nothing after the entry loop compares the consumed offset with the payload length
+	fs.Tri("parseConsumesAll", Tri3(all, !strings.Contains(strings.ReplaceAll(f.Str(fd.Body), " ", ""), "!=len(uncompressed)")), where)
 }
 
 func c04ReadNextBlock(fs *Facts, f *File) {
@@ -170,8 +196,15 @@ func c04ReadNextBlock(fs *Facts, f *File) {
 	short, bound := false, false
 	for _, is := range c04Ifs(f, fd.Body) {
 		c := c04Cond(f, is)
-		if c == "n<BlockHeaderSize" && c04RetMentions(f, is, "io.EOF") {
-			short = true
+		if strings.HasSuffix(c, "<BlockHeaderSize") && c04RetMentions(f, is, "io.EOF") {
+			// the compared variable must be the byte count returned by fr.file.Read(headerBuf)
+			v := strings.TrimSuffix(c, "<BlockHeaderSize")
+			for _, st := range f.Stmts(fd.Body) {
+				if as, ok := st.(*ast.AssignStmt); ok && len(as.Lhs) == 2 && len(as.Rhs) == 1 && f.Str(as.Lhs[0]) == v &&
+					strings.HasPrefix(strings.ReplaceAll(f.Str(as.Rhs[0]), " ", ""), "fr.file.Read(") {
+					short = true
+				}
+			}
 		}
 		be, isCmp := is.Cond.(*ast.BinaryExpr)
 		if mk != nil && isCmp && be.Op == token.GTR && is.Pos() < mk.Pos() && strings.Contains(f.Str(be.X), "blockHeader.CompressedSize") &&
@@ -183,7 +216,7 @@ func c04ReadNextBlock(fs *Facts, f *File) {
 		}
 	}
 	where := c01Reader + ":" + itoa(f.Line(fd))
-	fs.Tri("shortHeaderIsEOF", TriOf(short), where)
+	fs.Tri("shortHeaderIsEOF", ShapeTri(short), where)
 	// ---- what a cut-short payload means, at both sites
 	// site 1: the size pre-check (if present): its body either returns io.EOF unconditionally, or
 	//         io.EOF only for remaining <= 0 and io.ErrUnexpectedEOF otherwise
